@@ -125,6 +125,10 @@ def gen_to_function(r, info):
     for x in info["xs"]:
         if r.random() < 0.7:
             res.append(["sample", x, "control"])
+        if r.random() < 0.4:  # helper states between the control nodes are part of the solution as well
+            res.append(["sample", x, "integrator"])
+        if cls == "DirectCollocation" and r.random() < 0.4:
+            res.append(["sample", x, "integrator_roots"])
     for u in info["us"]:
         if r.random() < 0.5:
             res.append(["sample", u, "control"])
